@@ -523,8 +523,260 @@ func exec(line string) string {
 		return execSnd(o)
 	case "rcv":
 		return execRcv(o)
+	case "pair":
+		return execPair(o)
 	}
 	return "bad-op"
+}
+
+// ---------------------------------------------------------------- pair: two REAL muxes, free-running goroutines
+
+// execPair connects two real muxes back to back. Side A opens a channel and writes (one goroutine per
+// extended code), side B accepts and reads stdout / stderr with the given buffer sizes and pauses; code > 1
+// data is discarded by B. A monitor linearises every data packet (A→B) and window adjust (B→A) in the order
+// of the writePacket calls. Nothing is serialised: this is the "all schedules" sample of the real code.
+func execPair(o hx.Op) string {
+	var mu sync.Mutex
+	var ev []string
+	offs := map[uint32]int{}
+	a, b := newPipe(), newPipe()
+	var aChan uint32
+	a.onWrite = func(p []byte) { // A writes → B reads
+		mu.Lock()
+		switch p[0] {
+		case 94:
+			if len(p) >= 9 {
+				ev = append(ev, dataEvent(0, p[9:], offs))
+			}
+		case 95:
+			if len(p) >= 13 {
+				ev = append(ev, dataEvent(binary.BigEndian.Uint32(p[5:]), p[13:], offs))
+			}
+		}
+		mu.Unlock()
+		b.send(p)
+	}
+	b.onWrite = func(p []byte) { // B writes → A reads
+		mu.Lock()
+		if p[0] == 93 && len(p) >= 9 && binary.BigEndian.Uint32(p[1:]) == aChan {
+			ev = append(ev, fmt.Sprintf("J%d", binary.BigEndian.Uint32(p[5:])))
+		}
+		mu.Unlock()
+		a.send(p)
+	}
+	ma, mb := ssh.VerifC35NewMux(a), ssh.VerifC35NewMux(b)
+	type acc struct {
+		ch  ssh.Channel
+		err error
+	}
+	bc := make(chan acc, 1)
+	go func() {
+		nc, ok := <-mb.IncomingChannels()
+		if !ok {
+			bc <- acc{nil, io.EOF}
+			return
+		}
+		ch, rq, err := nc.Accept()
+		if err == nil {
+			go ssh.DiscardRequests(rq)
+		}
+		bc <- acc{ch, err}
+	}()
+	cha, rqa, err := ma.OpenChannel("verif", nil)
+	if err != nil {
+		return "open-err"
+	}
+	go ssh.DiscardRequests(rqa)
+	id, _, _ := ssh.VerifC35ChannelIDs(cha)
+	mu.Lock()
+	aChan = id
+	mu.Unlock()
+	ba := <-bc
+	if ba.err != nil {
+		return "accept-err"
+	}
+	chb := ba.ch
+	var wg sync.WaitGroup
+	totals := map[uint32]int{}
+	type wres struct {
+		code uint32
+		n    int
+		err  error
+	}
+	var writers []writerSpec
+	for _, w := range o.List("writers") {
+		c, szs, _ := strings.Cut(w, ":")
+		cv, _ := strconv.Atoi(c)
+		ws := writerSpec{code: uint32(cv)}
+		for _, z := range strings.Split(szs, "+") {
+			v, _ := strconv.Atoi(z)
+			ws.sizes = append(ws.sizes, v)
+			totals[ws.code] += v
+		}
+		writers = append(writers, ws)
+	}
+	wr := make([]wres, len(writers))
+	for i, w := range writers {
+		wg.Add(1)
+		go func(i int, w writerSpec) {
+			defer wg.Done()
+			var dst io.Writer = cha
+			if w.code == 1 {
+				dst = cha.Stderr()
+			} else if w.code > 1 {
+				dst = ssh.VerifC35Extended(cha, w.code)
+			}
+			off, tot := 0, 0
+			var err error
+			for _, z := range w.sizes {
+				var n int
+				n, err = dst.Write(fill(w.code, off, z))
+				tot += n
+				off += z
+				if err != nil {
+					break
+				}
+			}
+			wr[i] = wres{w.code, tot, err}
+		}(i, w)
+	}
+	// readers on B
+	type rres struct {
+		n  int
+		ok bool
+	}
+	rr := map[uint32]*rres{0: {ok: true}, 1: {ok: true}}
+	bufs := map[uint32]int{0: o.Int("r0"), 1: o.Int("r1")}
+	pause := o.Int("pause")
+	var rg sync.WaitGroup
+	for _, code := range []uint32{0, 1} {
+		if totals[code] == 0 {
+			continue
+		}
+		rg.Add(1)
+		go func(code uint32) {
+			defer rg.Done()
+			var src io.Reader = chb
+			if code == 1 {
+				src = chb.Stderr()
+			}
+			buf := make([]byte, bufs[code])
+			res := rr[code]
+			for k := 0; res.n < totals[code]; k++ {
+				n, err := src.Read(buf)
+				for i := 0; i < n; i++ {
+					if buf[i] != pat(code, res.n+i) {
+						res.ok = false
+					}
+				}
+				res.n += n
+				if err != nil {
+					return
+				}
+				if pause > 0 && k%pause == pause-1 {
+					time.Sleep(time.Duration(50+10*(k%7)) * time.Microsecond)
+				}
+			}
+		}(code)
+	}
+	fin := make(chan struct{})
+	go func() { wg.Wait(); rg.Wait(); close(fin) }()
+	hang := false
+	select {
+	case <-fin:
+	case <-time.After(60 * time.Second):
+		hang = true
+	}
+	// let both mux loops handle everything that is still queued (discarded extended data is credited by B's loop)
+	if !hang {
+		for dl := time.Now().Add(20 * time.Second); time.Now().Before(dl); time.Sleep(100 * time.Microsecond) {
+			if (a.idle() || a.isClosed()) && (b.idle() || b.isClosed()) {
+				if (a.idle() || a.isClosed()) && (b.idle() || b.isClosed()) {
+					break
+				}
+			}
+		}
+	}
+	aEnded, bEnded := a.isClosed(), b.isClosed()
+	a.Close()
+	b.Close()
+	if hang {
+		return "hang"
+	}
+	mu.Lock()
+	defer mu.Unlock()
+	out := append([]string(nil), ev...)
+	if aEnded || bEnded {
+		out = append(out, "E")
+	}
+	for _, r := range wr {
+		st := "ok"
+		if r.err != nil {
+			st = "err"
+		}
+		out = append(out, fmt.Sprintf("W%d=%d.%s", r.code, r.n, st))
+	}
+	for _, code := range []uint32{0, 1} {
+		if totals[code] > 0 {
+			st := "ok"
+			if !rr[code].ok {
+				st = "bad"
+			}
+			out = append(out, fmt.Sprintf("R%d=%d.%s", code, rr[code].n, st))
+		}
+	}
+	return strings.Join(out, ",")
+}
+
+func dataEvent(code uint32, payload []byte, offs map[uint32]int) string {
+	okc := true
+	off := offs[code]
+	for i, c := range payload {
+		if c != pat(code, off+i) {
+			okc = false
+			break
+		}
+	}
+	offs[code] = off + len(payload)
+	e := fmt.Sprintf("D%d.%d", code, len(payload))
+	if !okc {
+		e += "!"
+	}
+	return e
+}
+
+func genPair(g *hx.Gen) {
+	r := g.R
+	codes := []int{0, 1, 7}
+	hx.Shuffle(r, codes)
+	nw := r.PickInt(1, 2, 3)
+	var ws []string
+	for i := 0; i < nw; i++ {
+		var szs []string
+		for j := r.Range(1, 3); j > 0; j-- {
+			z := r.PickInt(0, 1, 32767, 32768, 32769, 98304, 98305, 1<<20, 1<<21, 1<<21+1, r.Range(0, 3<<20))
+			szs = append(szs, strconv.Itoa(z))
+		}
+		ws = append(ws, fmt.Sprintf("%d:%s", codes[i], strings.Join(szs, "+")))
+	}
+	g.Stat(fmt.Sprintf("pair.writers=%d", nw))
+	r0, r1 := r.PickInt(1, 100, 4096, 32768, 65536, 1<<20), r.PickInt(1, 7, 1000, 32768, 1<<20)
+	for i, w := range ws { // tiny read buffers only with small streams
+		tot := 0
+		for _, z := range strings.Split(w[strings.Index(w, ":")+1:], "+") {
+			v, _ := strconv.Atoi(z)
+			tot += v
+		}
+		if tot > 20000 {
+			if codes[i] == 0 && r0 < 4096 {
+				r0 = 4096
+			}
+			if codes[i] == 1 && r1 < 4096 {
+				r1 = 4096
+			}
+		}
+	}
+	g.Emit("pair writers=%s r0=%d r1=%d pause=%d", strings.Join(ws, ","), r0, r1, r.PickInt(0, 1, 3, 10))
 }
 
 // ---------------------------------------------------------------- generators
@@ -711,9 +963,12 @@ func genRcv(g *hx.Gen) {
 func gen(g *hx.Gen) {
 	n := g.Count(300, 40000)
 	for i := 0; i < n; i++ {
-		if i%2 == 0 {
+		switch {
+		case i%8 == 7:
+			genPair(g)
+		case i%2 == 0:
 			genSnd(g)
-		} else {
+		default:
 			genRcv(g)
 		}
 	}
